@@ -3,7 +3,7 @@ CONSTANTS
   Caps = {1}
   Classes = {}
   MaxSend = 0
-  Wall = {0, 1, 2, 3}
+  Wall = {0, 1, 2}
   MaxPublish = 4
   PendingWithoutWake = FALSE
   ClockAsCoded = FALSE
